@@ -204,6 +204,15 @@ asn1f_fix_constr_tag(arg_t *arg, int fix_top_level) {
 	case ASN_CONSTR_SET:
 	case ASN_CONSTR_CHOICE:
 		break;
+	case ASN_CONSTR_SEQUENCE_OF:
+	case ASN_CONSTR_SET_OF:
+		/* The tag of the element type follows the tagging default too */
+		TQ_FOR(v, &(expr->members), next) {
+			if(v->tag.tag_class != TC_NOCLASS
+			&& _asn1f_fix_type_tag(arg, v))
+				r_value = -1;
+		}
+		return r_value;
 	default:
 		return 0;
 	}
